@@ -143,6 +143,23 @@ func c07Pair(r *rt.Rec, lib *dilithium.Dilithium, ref *dilref.Key, seed [48]byte
 		r.Violate("C07/seal", "Seal output is not reference signature || message", cs, "", "")
 		return false
 	}
+	// a message this key has not seen, sealed FIRST: the caller then overwrites the returned slice and asks again
+	m2 := append(append([]byte(nil), msg...), '#')
+	firstSealed, err := lib.Seal(m2)
+	if err == nil {
+		keep := append([]byte(nil), firstSealed...)
+		for i := range firstSealed {
+			firstSealed[i] ^= 0x5A
+		}
+		again, _ := lib.Seal(m2)
+		sgn, _ := lib.Sign(m2)
+		pkk := lib.GetPK()
+		if !bytes.Equal(again, keep) || !bytes.Equal(sgn[:], keep[:dilithium.CryptoBytes]) || !dilithium.Verify(m2, sgn, &pkk) {
+			r.Violate("C07/aliased-buffer", "after the caller overwrote the slice returned by the first Seal of a message, sealing / signing the same message again gives a different result", c07Case{"c07pair", cs.Seed, rt.Hex(m2)}, "", "")
+			return false
+		}
+		r.Count("seal_first_then_overwrite_then_repeat", 1)
+	}
 	// the caller owns what Seal returned: scribbling over it (signature half and message half, also through
 	// the Extract* sub-slices) must not change what the key signs next
 	for i := range sealed {
